@@ -530,6 +530,63 @@ func extContains(in *Interp, fr *frame, fn *ssa.Function, args []Value) Value {
 	return r
 }
 
+// strings.ContainsAny(s, chars) for a concrete ASCII character set (symbolic subject bytes are ASCII or
+// compared byte-wise: a multi-byte character of chars cannot be matched by single ASCII bytes).
+func extContainsAny(in *Interp, fr *frame, fn *ssa.Function, args []Value) Value {
+	s, cs := args[0].(Str), args[1].(Str)
+	if s.B == nil && cs.B == nil {
+		return in.ts.Bool(strings.ContainsAny(in.goString(s, "strings.ContainsAny"), in.goString(cs, "strings.ContainsAny")))
+	}
+	if cs.B != nil {
+		in.unsupported("strings.ContainsAny with a symbolic character set")
+	}
+	for i := 0; i < len(cs.S); i++ {
+		if cs.S[i] >= 0x80 {
+			in.unsupported("strings.ContainsAny on a symbolic string with a non-ASCII character set %q", cs.S)
+		}
+	}
+	ts := in.ts
+	r := ts.False
+	for i := 0; i < s.Len(); i++ {
+		b := in.strByte(s, i)
+		for j := 0; j < len(cs.S); j++ {
+			r = ts.Or(r, ts.Eq(b, ts.BV(8, uint64(cs.S[j]))))
+		}
+	}
+	return r
+}
+
+// strings.ContainsRune(s, r) for an ASCII rune.
+func extContainsRune(in *Interp, fr *frame, fn *ssa.Function, args []Value) Value {
+	s, c := args[0].(Str), args[1].(*Term)
+	if s.B == nil && c.IsConst() {
+		return in.ts.Bool(strings.ContainsRune(s.S, rune(c.Int())))
+	}
+	if !c.IsConst() || c.Int() >= 0x80 || c.Int() < 0 {
+		in.unsupported("strings.ContainsRune with a symbolic or non-ASCII rune on a symbolic string")
+	}
+	ts := in.ts
+	r := ts.False
+	for i := 0; i < s.Len(); i++ {
+		r = ts.Or(r, ts.Eq(in.strByte(s, i), ts.BV(8, uint64(c.Int()))))
+	}
+	return r
+}
+
+// strings.Index(s, sub) for symbolic s / sub of concrete lengths.
+func extIndex(in *Interp, fr *frame, fn *ssa.Function, args []Value) Value {
+	s, p := args[0].(Str), args[1].(Str)
+	if s.B == nil && p.B == nil {
+		return in.mkInt(int64(strings.Index(in.goString(s, "strings.Index"), in.goString(p, "strings.Index"))))
+	}
+	ts := in.ts
+	r := ts.BV(64, ^uint64(0))
+	for i := s.Len() - p.Len(); i >= 0; i-- {
+		r = ts.Ite(in.strEq(in.strSlice(s, i, i+p.Len()), p), ts.BV(64, uint64(i)), r)
+	}
+	return r
+}
+
 func extIndexByte(in *Interp, fr *frame, fn *ssa.Function, args []Value) Value {
 	s, c := args[0].(Str), args[1].(*Term)
 	ts := in.ts
@@ -603,6 +660,12 @@ func (in *Interp) isDigitTerm(b *Term) *Term {
 // parseDecimal models strconv.ParseInt/ParseUint(s, 10, bits) on a symbolic string.
 // Returns (value 64-bit term, error Iface).
 func (in *Interp) parseDecimal(fr *frame, s Str, signed bool, bitSize int, fname string) (Value, Value) {
+	return in.parseInteger(fr, s, signed, bitSize, fname, 10)
+}
+
+// parseInteger models strconv.ParseInt / ParseUint for base 10 and for base 0 (decimal, or octal after a
+// leading zero; the 0x / 0b / 0o prefixes and digit-separating underscores are outside the model).
+func (in *Interp) parseInteger(fr *frame, s Str, signed bool, bitSize int, fname string, base int) (Value, Value) {
 	ts := in.ts
 	if s.Len() == 0 {
 		return ts.BV(64, 0), in.mkError(Str{S: "strconv." + fname + ": parsing \"\": invalid syntax"})
@@ -625,8 +688,26 @@ func (in *Interp) parseDecimal(fr *frame, s Str, signed bool, bitSize int, fname
 		return synErr()
 	}
 	ds := bs[i:]
+	radix := uint64(10)
+	if base == 0 && len(ds) > 1 && in.branch(ts.Eq(ds[0], ts.BV(8, '0')), nil) {
+		// a leading zero selects octal
+		for _, c := range []byte("xXbBoO_") {
+			if in.branch(ts.Eq(ds[1], ts.BV(8, uint64(c))), nil) {
+				in.unsupported("%s base 0: prefix 0%c on a symbolic string", fname, c)
+			}
+		}
+		radix = 8
+		ds = ds[1:]
+	}
 	for _, d := range ds {
-		if !in.branch(in.isDigitTerm(d), nil) {
+		if base == 0 && in.branch(ts.Eq(d, ts.BV(8, '_')), nil) {
+			in.unsupported("%s base 0: underscore in a symbolic string", fname)
+		}
+		ok := in.isDigitTerm(d)
+		if radix == 8 {
+			ok = ts.And(ts.Cmp(OUle, ts.BV(8, '0'), d), ts.Cmp(OUle, d, ts.BV(8, '7')))
+		}
+		if !in.branch(ok, nil) {
 			// underscore etc. are invalid in base 10
 			return synErr()
 		}
@@ -650,9 +731,9 @@ func (in *Interp) parseDecimal(fr *frame, s Str, signed bool, bitSize int, fname
 	over := ts.False
 	for i, d := range ds {
 		dv := ts.ZExt(ts.Bin(OSub, d, ts.BV(8, '0')), 64)
-		m := ts.Bin(OMul, acc, ts.BV(64, 10))
+		m := ts.Bin(OMul, acc, ts.BV(64, radix))
 		nacc := ts.Bin(OAdd, m, dv)
-		if i >= 19 {
+		if i >= 19 && radix == 10 {
 			// only a 20th digit can push the value past 2^64 (10^19 < 2^64 < 10^20)
 			o1 := ts.Cmp(OUlt, ts.BV(64, math.MaxUint64/10), acc) // acc > max/10
 			o2 := ts.Cmp(OUlt, nacc, m)                           // wrapped on add
@@ -678,7 +759,7 @@ func (in *Interp) parseDecimal(fr *frame, s Str, signed bool, bitSize int, fname
 	if neg {
 		val = ts.Neg(acc)
 	}
-	if !val.IsConst() {
+	if !val.IsConst() && radix == 10 {
 		in.digitProv[val.ID] = &digitsProv{digits: ds, neg: neg}
 	}
 	return val, Iface{}
@@ -1201,7 +1282,7 @@ func (in *Interp) registerExt() {
 	reg("strings.TrimSpace", nativeFn(strings.TrimSpace))
 	reg("strings.Split", nativeFn(strings.Split))
 	reg("strings.Fields", nativeFn(strings.Fields))
-	reg("strings.Index", nativeFn(strings.Index))
+	reg("strings.Index", extIndex)
 	reg("strings.EqualFold", nativeFn(strings.EqualFold))
 	reg("strings.Title", nativeFn(strings.Title))
 	reg("strings.TrimSuffix", nativeFn(strings.TrimSuffix))
@@ -1210,8 +1291,8 @@ func (in *Interp) registerExt() {
 	reg("strings.TrimRight", nativeFn(strings.TrimRight))
 	reg("strings.Count", nativeFn(strings.Count))
 	reg("strings.LastIndex", nativeFn(strings.LastIndex))
-	reg("strings.ContainsRune", nativeFn(strings.ContainsRune))
-	reg("strings.ContainsAny", nativeFn(strings.ContainsAny))
+	reg("strings.ContainsRune", extContainsRune)
+	reg("strings.ContainsAny", extContainsAny)
 
 	reg("strconv.Itoa", func(in *Interp, fr *frame, fn *ssa.Function, args []Value) Value {
 		return in.formatDecimal(fr, args[0].(*Term), true)
@@ -1255,13 +1336,13 @@ func (in *Interp) registerExt() {
 			v, err := strconv.ParseInt(s.S, base, bits)
 			return Tuple{in.mkInt(v), in.errOrNil(err)}
 		}
-		if base != 10 {
+		if base != 10 && base != 0 {
 			in.unsupported("ParseInt base %d symbolic", base)
 		}
 		if bits == 0 {
 			bits = 64
 		}
-		v, e := in.parseDecimal(fr, s, true, bits, "ParseInt")
+		v, e := in.parseInteger(fr, s, true, bits, "ParseInt", base)
 		return Tuple{v, e}
 	})
 	reg("strconv.ParseUint", func(in *Interp, fr *frame, fn *ssa.Function, args []Value) Value {
